@@ -127,7 +127,8 @@ PROPS = {
                     "refinement pass re-infers EVERY function of the block, so a signature first inferred from not-yet-typed callees is corrected.  "
                     "STATEMENTS (unit resolver_stmt): a variable reference is UndeclaredIdentifier and `x get e` is AssignmentToUndeclared exactly "
                     "when no such variable is in scope (e is checked either way); an if checks its condition under the boolean rule and both "
-                    "branches at its own loop depth; a jasi checks its body -- and only its body -- one loop level deeper and restores the depth."),
+                    "branches at its own loop depth; a jasi checks its body -- and only its body -- one loop level deeper and restores the depth; check_block opens the block's three "
+                    "scopes, hoists its functions before the first statement, checks EVERY statement in order and leaves the stacks balanced."),
         "not_covered": ("duplicate-function/parameter and reserved-name rules for functions and parameters (loops over HashSet / closures), function "
                         "lookup itself (lookup_func is a parameter of call_rule; its innermost-scope rule is a Kani obligation under C04), which methods exist for which "
                         "receiver type and their argument count, "
